@@ -78,11 +78,12 @@ pub fn parse_dxtn<'a>(
                 size: 0,
             });
         }
-        if (offset + size) as usize > original_input.len() {
+        let end = offset as u64 + size as u64;
+        if end > original_input.len() as u64 {
             error!(
                 "Offset+size of mipmap {} is out of bounds! {} > {}",
                 i,
-                offset + size,
+                end,
                 original_input.len()
             );
             return Err(Error::OutOfBounds {
@@ -91,7 +92,7 @@ pub fn parse_dxtn<'a>(
             });
         }
 
-        let image_bytes = &original_input[offset as usize..(offset + size) as usize];
+        let image_bytes = &original_input[offset as usize..end as usize];
         // DXT stores 4x4 texel blocks: a level has ceil(w/4) * ceil(h/4) of them
         // (not ceil(w*h/16), which is smaller for sides that are not multiples of 4)
         let (level_w, level_h) = blp_header.mipmap_size(i);
